@@ -146,6 +146,29 @@ class P(object):
   def degree(self):
     return max([sum(e for _, e in m) for m in self.t] or [0])
 
+  def split_linear(self, atom_ids):
+    """self == sum_a coeff[a] * a + rest, for the given atoms; None if some monomial holds a
+    product / power of them or they occur inside other atoms."""
+    atom_ids = set(atom_ids)
+    coeff = {}
+    rest = {}
+    for m, c in self.t.items():
+      hits = [(i, e) for i, e in m if i in atom_ids]
+      if not hits:
+        rest[m] = c
+        continue
+      if len(hits) > 1 or hits[0][1] != 1:
+        return None
+      a = hits[0][0]
+      mm = tuple(x for x in m if x[0] != a)
+      coeff.setdefault(a, {})[mm] = c
+    out = {a: P(t) for a, t in coeff.items()}
+    rest = P(rest)
+    inner = atoms_closure([rest] + list(out.values()), [])
+    if inner & atom_ids:
+      return None
+    return out, rest
+
   # -- arithmetic
   def __add__(self, o):
     try:
@@ -213,6 +236,10 @@ class P(object):
       for m2, c2 in o.t.items():
         m = _mul_mono(m1, m2)
         c = c1 * c2
+        if _has_inverse_pair(m):
+          q = _cancel_inverse(m).scale(c)
+          extra = q if extra is None else extra + q
+          continue
         if _has_square_root(m):
           # sqrt(x)^2 == x (x >= 0 is the domain obligation of the root)
           q = _expand_roots(m).scale(c)
@@ -363,6 +390,45 @@ def _mul_mono(m1, m2):
   for i, e in m2:
     d[i] = d.get(i, 0) + e
   return tuple(sorted(d.items()))
+
+
+def _inv_of_single_atom(a):
+  """For an inv atom whose argument is exactly one atom (coefficient 1): that atom's id."""
+  if a.kind != 'inv':
+    return None
+  q = a.args[0]
+  if len(q.t) != 1:
+    return None
+  (mm, cc), = q.t.items()
+  if cc == 1 and len(mm) == 1 and mm[0][1] == 1:
+    return mm[0][0]
+  return None
+
+
+def _has_inverse_pair(m):
+  ids = {i for i, _ in m}
+  for i, _ in m:
+    j = _inv_of_single_atom(ATOMS[i])
+    if j is not None and j in ids:
+      return True
+  return False
+
+
+def _cancel_inverse(m):
+  """x * inv(x) == 1 wherever inv(x) is defined (x != 0 is the definedness obligation)."""
+  d = dict(m)
+  changed = True
+  while changed:
+    changed = False
+    for i in list(d):
+      j = _inv_of_single_atom(ATOMS[i])
+      if j is not None and d.get(j, 0) > 0 and d.get(i, 0) > 0:
+        k = min(d[i], d[j])
+        d[i] -= k
+        d[j] -= k
+        changed = True
+    d = {i: e for i, e in d.items() if e > 0}
+  return P({tuple(sorted(d.items())): Fr(1)})
 
 
 def _has_square_root(m):
@@ -785,8 +851,9 @@ def _iscale(a, c):
 class Region(object):
   """Box of variable bounds: name -> (lo, hi), None = unbounded."""
 
-  def __init__(self, bounds):
+  def __init__(self, bounds, nonzero=()):
     self.bounds = dict(bounds)
+    self.nonzero = set(nonzero)
     self._ai = {}
     self._simp = {}
 
@@ -798,6 +865,8 @@ class Region(object):
         cl.append(v >= lo)
       if hi is not None:
         cl.append(v <= hi)
+    for n in sorted(self.nonzero):
+      cl.append(P.var(n).ne(0))
     return ball(cl)
 
   # -- intervals
@@ -883,6 +952,11 @@ class Region(object):
           return True
         if (lo is not None and lo > 0) or (hi is not None and hi < 0):
           return False
+        q = self.simplify(b.args[0])
+        if len(q.t) == 1:
+          (mm, cc), = q.t.items()
+          if len(mm) == 1 and ATOMS[mm[0][0]].kind == 'var' and ATOMS[mm[0][0]].name in self.nonzero:
+            return False
       return None
     if k == 'not':
       t = self.truth(b.args[0])
